@@ -18,6 +18,7 @@ change. `C18_readonly` records that the view depends on nothing but the receiver
 -/
 import Anytype.Lemmas.Aggregates
 import Anytype.Lemmas.Views
+import Anytype.Lemmas.OfIntFinite
 namespace Anytype
 
 section Generic
@@ -247,14 +248,34 @@ theorem C18_F64_min_max (l : List (Num F64)) (hne : l ≠ []) (hnum : ∀ x ∈ 
       (fun x _ y _ z _ => C18_F64_lt_trans x y z)
       (fun x hx => (C18_F64_finite_bounds x (hfin x hx)).2.1)⟩
 
-/-
-NOT YET PROVED: for an int element the finiteness hypothesis of `C18_F64_min_max` is automatic,
+/-- Go `float64(i)` of a 64-bit `int` is finite (analysis of `F64.roundPos` on `|i| ≤ 2^63`,
+`Anytype/Lemmas/OfIntFinite.lean`) -/
+theorem C18_F64_ofInt_finite (i : Int) (h : InRange i) : (F64.ofInt i).isFinite = true :=
+  F64.ofInt_finite i h
 
-    theorem C18_F64_ofInt_finite (i : Int) (hi : InRange i) : (F64.ofInt i).isFinite = true
-
-(needs the analysis of `F64.roundPos` on `|i| ≤ 2^63`); with it `hfin` could be asked of the
-float elements only. It is checked below on concrete values.
--/
+/-- `C18_F64_min_max` with the finiteness hypothesis asked of the float elements only: the int
+elements are 64-bit ints, and nothing is assumed about `float64(i)` -/
+theorem C18_F64_min_max_inrange (l : List (Num F64)) (hne : l ≠ [])
+    (hnum : ∀ x ∈ l, x.isNum = true)
+    (hfin : ∀ f, Num.float f ∈ l → f.isFinite = true)
+    (hint : ∀ i, Num.int i ∈ l → InRange i) :
+    (∃ m, Agg.min l = some m ∧ m ∈ floats l ∧ ∀ x ∈ floats l, F64.ltGo x m = false) ∧
+    (∃ m, Agg.max l = some m ∧ m ∈ floats l ∧ ∀ x ∈ floats l, F64.ltGo m x = false) := by
+  refine C18_F64_min_max l hne hnum ?_
+  intro x hx
+  obtain ⟨v, hv, hvx⟩ := List.mem_filterMap.mp hx
+  cases v with
+  | int i =>
+    have : F64.ofInt i = x := by
+      have h : (FloatArith.ofInt i : F64) = x := by simpa [Num.toF] using hvx
+      exact h
+    rw [← this]
+    exact C18_F64_ofInt_finite i (hint i hv)
+  | float f =>
+    have : f = x := by simpa [Num.toF] using hvx
+    rw [← this]
+    exact hfin f hv
+  | other => simp [Num.toF] at hvx
 
 /-! ### non-vacuity -/
 
@@ -301,6 +322,19 @@ def exF64 : List (Num F64) :=
 
 example : exF64 ≠ [] ∧ (∀ x ∈ exF64, x.isNum = true) ∧
     (∀ x ∈ floats exF64, x.isFinite = true) := by decide
+/-- hypotheses of `C18_F64_min_max_inrange` (nothing about `float64(-3)`), `C18_F64_ofInt_finite` -/
+example : exF64 ≠ [] ∧ (∀ x ∈ exF64, x.isNum = true) ∧
+    (∀ f, Num.float f ∈ exF64 → f.isFinite = true) ∧ (∀ i, Num.int i ∈ exF64 → InRange i) := by
+  refine ⟨by decide, by decide, ?_, ?_⟩
+  · intro f hf
+    simp only [exF64, List.mem_cons, Num.float.injEq, List.not_mem_nil, or_false, reduceCtorEq,
+      false_or] at hf
+    rcases hf with rfl | rfl <;> decide
+  · intro i hi
+    simp only [exF64, List.mem_cons, Num.int.injEq, List.not_mem_nil, or_false, reduceCtorEq,
+      false_or] at hi
+    subst hi; decide
+example : InRange (-(2 : Int) ^ 63) ∧ InRange ((2 : Int) ^ 63 - 1) := by decide
 example : Agg.max exF64 = some ⟨0xbfd0000000000000⟩ ∧ Agg.min exF64 = some ⟨0xc008000000000000⟩ := by
   decide
 
@@ -361,3 +395,5 @@ end Anytype
 #print axioms Anytype.C18_F64_lt_congr
 #print axioms Anytype.C18_F64_finite_bounds
 #print axioms Anytype.C18_F64_min_max
+#print axioms Anytype.C18_F64_ofInt_finite
+#print axioms Anytype.C18_F64_min_max_inrange
